@@ -85,5 +85,5 @@ def run(ctx):
         rc = max(rc, _conc.race_run(ctx, SPEC, tier="quick"))
     else:
         # a 10-case slice under the race detector in the quick tier too
-        rc = max(rc, _conc.race_run(ctx, SPEC, tier="quick", env_more={"VERIF_C13_CASES": "10"}))
+        rc = max(rc, _conc.race_run(ctx, SPEC, tier="quick", env_more={"VERIF_C13_STRATIFIED": "1"}))
     return rc
